@@ -81,6 +81,20 @@ pub assume_specification<T> [RefCell::<T>::new] (v: T) -> (r: RefCell<T>)
 pub assume_specification<T: ?Sized> [RefCell::<T>::get_mut] (c: &mut RefCell<T>) -> (r: &mut T)
     ensures &*r == rc_val(old(c)), rc_val(final(c)) == &*final(r);
 
+#[verifier::accept_recursive_types(T)]
+#[verifier::external_type_specification]
+#[verifier::external_body]
+pub struct ExRef<'a, T: ?Sized>(Ref<'a, T>);
+
+pub uninterp spec fn ref_val<'a, T: ?Sized>(c: &Ref<'a, T>) -> &'a T;
+
+// functional value of a shared runtime borrow; the call may panic (BorrowError) -- not an obligation, see C11
+pub assume_specification<'b, T: ?Sized> [RefCell::<T>::borrow] (c: &'b RefCell<T>) -> (r: Ref<'b, T>)
+    ensures ref_val(&r) == rc_val(c);
+
+pub assume_specification<'b, 'c, T: ?Sized> [<Ref<'b, T> as std::ops::Deref>::deref] (c: &'c Ref<'b, T>) -> (r: &'c T)
+    ensures r == ref_val(c);
+
 // ---- MaybeUninit
 pub uninterp spec fn mu_val<T>(m: MaybeUninit<T>) -> Option<T>;
 
